@@ -1,5 +1,33 @@
 """Registry: which Lean modules and which correspondence runs serve each property."""
 
+# T1: which regenerated facts each property's argument rests on (see extract/main.go, lean/JivaVerif/Tie.lean)
+FACTS_FOR = {
+    "C01": ["ioRefusedWriteAt", "ioRefusedReadAt", "lookupBody", "removeIndexShifts", "removeIndexBody"],
+    "C02": ["mwWriteOk", "mwSyncOk", "mwUnmapOk", "mwWriteReturns", "handleErrorNoLock", "errorAttributionWriteAt",
+            "errorAttributionSync", "errorAttributionUnmap", "buildReadWriters", "removeBackendTail", "removeReplicaTail"],
+    "C03": ["volStatusRW", "volStatusCounts", "setModeReevaluates", "removeReplicaTail"],
+    "C04": ["buildReadWriters", "errorAttributionReadAt", "handleErrorNoLock"],
+    "C05": ["mwWriteOk", "mwSyncOk", "mwUnmapOk", "handleErrorNoLock", "errorAttributionWriteAt", "errorAttributionSync",
+            "errorAttributionUnmap", "errorAttributionReadAt", "removeBackendTail", "removeReplicaTail"],
+    "C06": ["fullWritePunch", "preloadPunch", "removeIndexSnapIndx", "lookupBody"],
+    "C07": ["verifyOrder", "canAdd", "addReplicaNoLockRechecks"],
+    "C09": ["canSignal", "electionLoop", "electionInit", "electionSkipsRebuildingRegistrant"],
+    "C10": ["replicaWriteCounter", "increaseRevisionCounter", "getRevisionCounter", "guard_Replica_SetRevisionCounter", "verifyOrder"],
+    "C11": ["cleanerConds", "cleanerSlices", "removeIndexShifts", "removeIndexBody", "removeIndexSnapIndx",
+            "guard_Replica_PrepareRemoveDisk", "guard_Replica_RemoveDiffDisk"],
+    "C12": ["createDiskDupGuard", "chainTooLong", "liveChainTooLong", "guard_Replica_RemoveDiffDisk", "guard_Replica_PrepareRemoveDisk"],
+    "C13": ["snapshotRefusal", "checkpointCond", "checkpointBody", "removeReplicaTail"],
+    "C14": ["actionsGated", "checkAction", "replicaActions", "routedActions"],
+    "C16": ["guard_Replica_Resize", "guard_Server_Resize"],
+    "C17": ["replicaWriteModeBeforeData", "replicaActions", "routedActions", "actionsGated", "checkAction",
+            "guard_Replica_RemoveDiffDisk", "guard_Replica_ReplaceDisk", "guard_Replica_PrepareRemoveDisk",
+            "guard_Replica_SetRevisionCounter", "guard_Replica_WriteAt", "guard_Server_Open", "guard_Server_WriteAt",
+            "guard_Server_ReadAt", "guard_Server_Sync", "guard_Server_Unmap", "guard_Server_Snapshot",
+            "guard_Server_RemoveDiffDisk", "guard_Server_ReplaceDisk", "guard_Server_PrepareRemoveDisk", "guard_Server_Revert",
+            "guard_Server_SetReplicaMode", "guard_Server_SetRevisionCounter", "guard_Server_SetCheckpoint", "guard_Server_Reload"],
+    "C18": ["buildReadWriters", "removeBackendTail", "canAdd", "addReplicaNoLockRechecks", "removeReplicaTail", "volStatusCounts"],
+}
+
 ENGINES = ["replicadiff", "ctldiff", "rpcdiff", "restdiff", "crashdiff"]
 
 FS = ["modelled: the file system is a sparse block map per file (pwrite of whole 4 KiB blocks, fallocate PUNCH_HOLE, holes read zero, FIEMAP reports exactly the allocated blocks)",
